@@ -214,13 +214,13 @@ func (k Kind) String() string {
 // Hello is everything the server parsed from the client's handshake.
 type Hello struct {
 	Kind       Kind
-	Consumed   int    // length of the handshake message
-	PadLen     int    // P_C / P length
-	MarkFound  bool   // the mark was located
-	MACValid   bool   // MAC verified for one of the accepted hours
-	EpochHour  int64  // the hour that verified
-	EpochDelta int    // EpochHour - server hour (-1, 0, +1)
-	X          []byte // UniformDH: the client's public key bytes
+	Consumed   int     // length of the handshake message
+	PadLen     int     // P_C / P length
+	MarkFound  bool    // the mark was located
+	MACValid   bool    // MAC verified for one of the accepted hours
+	EpochHour  int64   // the hour that verified
+	EpochDelta int     // EpochHour - server hour (-1, 0, +1)
+	X          []byte  // UniformDH: the client's public key bytes
 	Ticket     *Ticket // ticket handshake: the authority's record
 	TicketBlob []byte  // ticket handshake: the 112 bytes presented
 	PriorSeen  int     // how often these ticket bytes had been presented before
@@ -410,6 +410,41 @@ type RespLayout struct {
 // Layout returns the field boundaries for a padding length.
 func Layout(padLen int) RespLayout {
 	return RespLayout{KeySize, KeySize + padLen, KeySize + padLen + MacLen, KeySize + padLen + 2*MacLen}
+}
+
+// Field names one part of the server response.
+type Field int
+
+const (
+	FieldY Field = iota
+	FieldPad
+	FieldMark
+	FieldMAC
+)
+
+func (f Field) String() string { return [...]string{"y", "pad", "mark", "mac"}[f] }
+
+// Span returns the byte range [from, to) of a field.
+func (l RespLayout) Span(f Field) (from, to int) {
+	switch f {
+	case FieldY:
+		return 0, l.YEnd
+	case FieldPad:
+		return l.YEnd, l.PadEnd
+	case FieldMark:
+		return l.PadEnd, l.MarkEnd
+	}
+	return l.MarkEnd, l.End
+}
+
+// CorruptResponse returns a copy of the response with one bit of the chosen
+// field inverted (bit counts from the start of the field).
+func CorruptResponse(resp []byte, f Field, bit int) []byte {
+	from, to := Layout(len(resp) - KeySize - 2*MacLen).Span(f)
+	if bit < 0 || bit >= (to-from)*8 {
+		panic("refss: bit outside the field")
+	}
+	return FlipBit(resp, from*8+bit)
 }
 
 // Response builds Y | P_S | M_S | MAC_S with the given padding bytes.
